@@ -349,22 +349,24 @@ theorem argmaxActive_some {p : List Bool} {w : List ℝ} {im : ℕ} {wmax : ℝ}
   exact ⟨hi, by rw [hp]; rfl⟩
 
 /-- when the outer loop ends through its test, no coefficient fixed at zero has a gradient
-    above the threshold (dual feasibility on the active set) -/
-theorem nnlsOuter_exit (tol : ℝ) (G : List (List ℝ)) (c : List ℝ) :
-    ∀ (fuel : ℕ) (x : List ℝ) (p : List Bool) (w : List ℝ),
-      (nnlsOuter tol G c fuel x p w).2.2.2 = true →
-      ∀ i, i < (nnlsOuter tol G c fuel x p w).2.2.1.length →
-        (nnlsOuter tol G c fuel x p w).2.1.getD i false = false →
-        (nnlsOuter tol G c fuel x p w).2.2.1.getD i 0 ≤ tol := by
+    above the threshold in force at the returned point (dual feasibility on the active set).
+    The threshold is loop state: `tol` on entry, `tolNext x` after an iteration that produced
+    `x`; it is never above `tolNext` of the current point. -/
+theorem nnlsOuter_exit (tn : List ℝ → ℝ) (G : List (List ℝ)) (c : List ℝ) :
+    ∀ (fuel : ℕ) (tol : ℝ) (x : List ℝ) (p : List Bool) (w : List ℝ),
+      (nnlsOuter tn G c fuel tol x p w).2.2.2 = true → tol ≤ tn x →
+      ∀ i, i < (nnlsOuter tn G c fuel tol x p w).2.2.1.length →
+        (nnlsOuter tn G c fuel tol x p w).2.1.getD i false = false →
+        (nnlsOuter tn G c fuel tol x p w).2.2.1.getD i 0 ≤ tn (nnlsOuter tn G c fuel tol x p w).1 := by
   intro fuel
   induction fuel with
-  | zero => intro x p w h; simp [nnlsOuter] at h
+  | zero => intro tol x p w h; simp [nnlsOuter] at h
   | succ fuel ih =>
-    intro x p w
+    intro tol x p w
     rw [nnlsOuter]
     cases ham : argmaxActive p w with
     | none =>
-      intro _ i hi hp
+      intro _ _ i hi hp
       have := argmaxActive_none ham i hi
       simp only at hp
       rw [this] at hp; cases hp
@@ -374,11 +376,11 @@ theorem nnlsOuter_exit (tol : ℝ) (G : List (List ℝ)) (c : List ℝ) :
       by_cases hlt : tol < wmax
       · rw [if_pos hlt]
         simp only [Bool.and_eq_true]
-        intro h
-        exact ih _ _ _ h.1
+        intro h _
+        exact ih _ _ _ _ h.1 (le_refl _)
       · rw [if_neg hlt]
-        intro _ i hi hp
-        exact le_trans (argmaxActive_some ham i hi hp) (not_lt.mp hlt)
+        intro _ htol i hi hp
+        exact le_trans (le_trans (argmaxActive_some ham i hi hp) (not_lt.mp hlt)) htol
 
 /-! ### the executable KKT predicate -/
 
